@@ -17,6 +17,7 @@ func runC01(c *Ctx) {
 	c.Clause("C01.5 received DATAGRAM payloads are copied out of the packet buffer before they are queued")
 	c.Clause("C01.6 the run-loop timer folds in the loss-detection and ACK deadlines whenever the connection can still send probes/ACKs")
 	c.Clause("C01.7 lockset analysis: the frozen set of send-stream, receive-stream, framer and datagram-queue fields is only read or written with the owner's mutex held (outside the constructors)")
+	c.Clause("C01.8 a send stream that hands out a retransmission reports hasMoreData == true (or computes it from the buffered frame and the unsent data)")
 	c.NotCovered("prefix/ordering/completeness of the bytes delivered (reassembly is covered structurally by C03)")
 	c.NotCovered("that retransmission eventually succeeds; liveness under arbitrary loss")
 
@@ -27,6 +28,7 @@ func runC01(c *Ctx) {
 	c.rule("C01.5", func() { c01Datagrams(c) })
 	c.rule("C01.6", func() { c01Timer(c) })
 	c.rule("C01.7", func() { c01Guarded(c) })
+	c.rule("C01.8", func() { c01HasMoreAfterRetransmission(c) })
 }
 
 func globalIs(v ssa.Value, obj types.Object) bool {
